@@ -20,6 +20,8 @@ OPTION_SETS = [
      '--max-inline-score', '5'],
     ['--skip-compositions'],
     ['--skip-geomcomp', '--skip-boundary-conditions'],
+    ['--skip-geomcomp'],
+    ['--skip-boundary-conditions'],
 ]
 
 DENSITIES = ['-1.0', '-2.7', '0.05', '-7.85', '1.0', '-.5', '-1.00',
